@@ -50,6 +50,7 @@ type FuncVC struct {
 	homePkg    string          // package of the function being verified: its opaque preds are revealed
 	reveal     map[string]bool // explicitly revealed opaque preds
 	revealAll  bool
+	hide       map[string]bool
 	verNext    map[string]string // heap array version -> allocation counter when it was created (wfHeap facts)
 	scopeEnd   map[string]string // scoped assumption "pc\x00formula" -> pc at which it is forgotten
 	openScoped []string
@@ -60,7 +61,7 @@ type FuncVC struct {
 func NewFuncVC(w *World, name string) *FuncVC {
 	return &FuncVC{w: w, name: name, decls: map[string]string{}, funDecls: map[string]string{},
 		pcParents: map[string][]string{}, pcCons: map[string][]string{}, cards: map[string]bool{},
-		boxes: map[string]bool{}, globals: map[*types.Var]string{}, joins: map[string][]string{}, opaqueMono: map[string]bool{}, reveal: map[string]bool{}, verNext: map[string]string{}, scopeEnd: map[string]string{}, cutAt: map[string]string{}}
+		boxes: map[string]bool{}, globals: map[*types.Var]string{}, joins: map[string][]string{}, opaqueMono: map[string]bool{}, reveal: map[string]bool{}, hide: map[string]bool{}, verNext: map[string]string{}, scopeEnd: map[string]string{}, cutAt: map[string]string{}}
 }
 
 func (vc *FuncVC) fresh() int { vc.counter++; return vc.counter }
